@@ -75,8 +75,13 @@ func (c *ctx) mapOrder() {
 								if s.Tok == token.DEFINE {
 									continue // loop-local temporary
 								}
-								if b, ok := info.TypeOf(id).Underlying().(*types.Basic); ok && b.Info()&types.IsInteger != 0 && (s.Tok == token.ADD_ASSIGN) {
-									continue
+								if id.Name == "_" {
+									continue // value discarded
+								}
+								if t := info.TypeOf(id); t != nil {
+									if b, ok := t.Underlying().(*types.Basic); ok && b.Info()&types.IsInteger != 0 && (s.Tok == token.ADD_ASSIGN) {
+										continue
+									}
 								}
 							}
 							bad = "the loop body assigns " + astx.Short(l) + " in iteration order"
